@@ -1,0 +1,121 @@
+//go:build verif
+
+package server
+
+import (
+	"net/http"
+	"sort"
+
+	cdcreader "github.com/zilliztech/milvus-cdc/core/reader"
+	"github.com/zilliztech/milvus-cdc/core/util"
+	"github.com/zilliztech/milvus-cdc/server/metrics"
+	"github.com/zilliztech/milvus-cdc/server/model"
+	"github.com/zilliztech/milvus-cdc/server/model/meta"
+
+	serverapi "github.com/zilliztech/milvus-cdc/server/api"
+)
+
+// NewMetaCDCForVerif builds a MetaCDC exactly like NewMetaCDC does, except that the metadata store factory and
+// the MQ factory creator are injected (NewMetaCDC constructs the store from the config and insists on a
+// reachable Pulsar/Kafka). The source-etcd reachability check and the MQ connection check are kept.
+func NewMetaCDCForVerif(serverConfig *CDCServerConfig, factory serverapi.MetaStoreFactory, creator cdcreader.FactoryCreator) (*MetaCDC, error) {
+	if serverConfig.MaxNameLength == 0 {
+		serverConfig.MaxNameLength = 256
+	}
+	if _, err := util.GetEtcdClient(GetEtcdServerConfigFromSourceConfig(serverConfig.SourceConfig)); err != nil {
+		return nil, err
+	}
+	cdc := &MetaCDC{
+		metaStoreFactory: factory,
+		config:           serverConfig,
+		mqFactoryCreator: creator,
+	}
+	if err := cdc.checkMQConnection(); err != nil {
+		return nil, err
+	}
+	cdc.collectionNames.data = make(map[string][]string)
+	cdc.collectionNames.excludeData = make(map[string][]string)
+	cdc.collectionNames.extraInfos = make(map[string]model.ExtraInfo)
+	cdc.collectionNames.nameMapping = make(map[string]map[string]string)
+	cdc.cdcTasks.data = make(map[string]*meta.TaskInfo)
+	cdc.replicateEntityMap.data = make(map[string]*ReplicateEntity)
+	return cdc, nil
+}
+
+// NewCDCHandlerForVerif returns the /cdc HTTP handler of a CDCServer around the given service.
+func NewCDCHandlerForVerif(api CDCService, serverConfig *CDCServerConfig) http.Handler {
+	c := &CDCServer{api: api, serverConfig: serverConfig}
+	return c.getCDCHandler()
+}
+
+type VerifTask struct {
+	TaskID string
+	State  int
+	Reason string
+}
+
+type VerifEntity struct {
+	RefCnt        int32
+	QuitFuncTasks []string
+}
+
+// VerifSnapshot is a deep copy of the server's bookkeeping, taken under the locks the server itself uses.
+type VerifSnapshot struct {
+	Data        map[string][]string
+	ExcludeData map[string][]string
+	ExtraInfos  map[string]bool // EnableUserRole per target
+	NameMapping map[string]map[string]string
+	Tasks       []VerifTask
+	Entities    map[string]VerifEntity
+	TaskGauge   map[string][]string // task ids per state according to metrics.TaskNumVec
+}
+
+func (e *MetaCDC) VerifSnapshot() VerifSnapshot {
+	s := VerifSnapshot{
+		Data: map[string][]string{}, ExcludeData: map[string][]string{}, ExtraInfos: map[string]bool{},
+		NameMapping: map[string]map[string]string{}, Entities: map[string]VerifEntity{},
+	}
+	e.collectionNames.RLock()
+	for k, v := range e.collectionNames.data {
+		s.Data[k] = append([]string{}, v...)
+	}
+	for k, v := range e.collectionNames.excludeData {
+		s.ExcludeData[k] = append([]string{}, v...)
+	}
+	for k, v := range e.collectionNames.extraInfos {
+		s.ExtraInfos[k] = v.EnableUserRole
+	}
+	for k, v := range e.collectionNames.nameMapping {
+		m := map[string]string{}
+		for a, b := range v {
+			m[a] = b
+		}
+		s.NameMapping[k] = m
+	}
+	e.collectionNames.RUnlock()
+	e.cdcTasks.RLock()
+	for _, t := range e.cdcTasks.data {
+		s.Tasks = append(s.Tasks, VerifTask{TaskID: t.TaskID, State: int(t.State), Reason: t.Reason})
+	}
+	e.cdcTasks.RUnlock()
+	sort.Slice(s.Tasks, func(i, j int) bool { return s.Tasks[i].TaskID < s.Tasks[j].TaskID })
+	e.replicateEntityMap.RLock()
+	for k, ent := range e.replicateEntityMap.data {
+		ve := VerifEntity{RefCnt: ent.refCnt.Load()}
+		ent.taskQuitFuncs.Range(func(task string, _ func()) bool {
+			ve.QuitFuncTasks = append(ve.QuitFuncTasks, task)
+			return true
+		})
+		sort.Strings(ve.QuitFuncTasks)
+		s.Entities[k] = ve
+	}
+	e.replicateEntityMap.RUnlock()
+	s.TaskGauge = metrics.VerifTaskNum()
+	return s
+}
+
+// VerifCheckDuplicate runs the duplicate / overlap check of Create (it updates the bookkeeping on success,
+// exactly as Create does before it persists the task).
+func (e *MetaCDC) VerifCheckDuplicate(uKey string, newCollectionNames []string, extraInfo model.ExtraInfo, mapCollectionNames map[string]string) ([]string, error) {
+	return e.checkDuplicateCollection(uKey, newCollectionNames, extraInfo, mapCollectionNames)
+}
